@@ -599,3 +599,93 @@ def check_C04(tier, seed):
                      "an operation counts as acknowledged when its API call returned in the child",
                      "crash points are the verifhook.Point call sites of commit 7a8f971"]
     return v.finish(rule=RULE_CRASH, level="model_checking")
+
+
+# ----------------------------------------------------------------------------
+# C13
+
+NS_URIS = [
+    {"uri": "http://ex.test/a/x1", "exp": "http://ex.test/a/", "local": "x1"},
+    {"uri": "http://ex.test/a/x2", "exp": "http://ex.test/a/", "local": "x2"},
+    {"uri": "http://ex.test/b#y", "exp": "http://ex.test/b#", "local": "y"},
+    {"uri": "https://ex.test/c/", "exp": "https://ex.test/c/", "local": ""},
+    {"uri": "http://ex.test/d/p:q", "exp": "http://ex.test/d/", "local": "p:q"},
+    {"uri": "http://ex.test/e/f#g/h", "exp": "http://ex.test/e/f#", "local": "g/h"},
+]
+
+
+def trace_violation(v, label, trace_file, line, what):
+    path = os.path.join(v.wd, "replay-%s-trace.json" % label)
+    ctx = []
+    with open(trace_file) as fh:
+        for i, l in enumerate(fh, 1):
+            if line - 6 <= i <= line:
+                ctx.append(l.strip())
+    with open(path, "w") as fh:
+        json.dump({"property": v.prop, "stage": label, "trace_file": trace_file, "rejected_line": line,
+                   "context": ctx, "what": what}, fh, indent=1)
+    v.violations.append(("%s: %s; line %d: %s" % (label, what, line, ctx[-1] if ctx else ""), path))
+
+
+def check_C13(tier, seed):
+    v = Verdict("C13", tier, seed)
+    v.wd = verif.workdir("C13")
+    sd = verif.spec_copy(v.wd)
+    binary = verif.build_harness(v.wd)
+    thorough = tier == "thorough"
+    # (a) TLC generates operation sequences over the URI shapes with restarts; the harness executes them, compares
+    #     what the specification determines and records every pair handed out
+    name = "C13_seq"
+    consts = {"UriSeq": NS_URIS, "MaxSteps": 5 if thorough else 4}
+    verif.gen_mc(sd, name, "Namespace", consts, "Spec", props=("GrowOnly",), view="nview", constraint="NEmit", header="TRUE")
+    out = os.path.join(v.wd, name + ".out")
+    st = verif.run_tlc(sd, name, out)
+    v.add_tlc(st)
+    tot, results = verif.replay(binary, v.wd, out, label=name, test="TestNamespace",
+                                extra_env={"VERIF_TRACE": "{wd}/ns_trace_{i}.ndjson"})
+    v.add_replay(tot, results, label=name)
+    os.remove(out)
+    # (b) concurrent namespace / id assertion against context readers and serialisers, in a child process
+    stress = os.path.join(v.wd, "ns_stress.ndjson")
+    secs = 12 if thorough else 4
+    for k, gmp in enumerate(["16", "4"] if thorough else ["16"]):
+        p = verif.subprocess.run([binary, "-test.run", "^TestNamespaceStress$", "-test.timeout", "0"], cwd=v.wd,
+                                 env=dict(os.environ, VERIF_TRACE=stress + str(k), VERIF_DIR=os.path.join(v.wd, "stress%d" % k),
+                                          VERIF_SECONDS=str(secs), VERIF_SEED=str(seed), GOMAXPROCS=gmp),
+                                 capture_output=True, text=True)
+        verif.shutil.rmtree(os.path.join(v.wd, "stress%d" % k), ignore_errors=True)
+        if p.returncode != 0:
+            txt = p.stdout + p.stderr
+            m = verif.re.search(r"^(fatal error: .*|panic: .*)$", txt, verif.re.M)
+            if m and "mimiro-io/datahub/internal/" in txt:
+                path = os.path.join(v.wd, "replay-C13_stress-%d.json" % k)
+                with open(path, "w") as fh:
+                    json.dump({"property": "C13", "stage": "C13_stress", "what": m.group(1), "gomaxprocs": gmp,
+                               "log_tail": txt[-4000:]}, fh, indent=1)
+                v.violations.append(("C13_stress: hub process died: " + m.group(1), path))
+                continue
+            verif.sys.stderr.write(txt[-3000:])
+            raise Inconclusive("namespace stress driver failed")
+    # (c) TLC decides whether everything the hub handed out is one grow-only bijection
+    trace = os.path.join(v.wd, "ns_trace_all.ndjson")
+    n_traces = 0
+    with open(trace, "w") as outfh:
+        for f in sorted(os.listdir(v.wd)):
+            if f.startswith("ns_trace_") and f != "ns_trace_all.ndjson" or f.startswith("ns_stress.ndjson"):
+                with open(os.path.join(v.wd, f)) as fh:
+                    for line in fh:
+                        outfh.write(line)
+                        if '"k":"reset"' in line:
+                            n_traces += 1
+    ok, nlines, line, tst = verif.validate_trace(v.wd, sd, "TraceNamespace", trace)
+    v.cov["states"] += tst["distinct"]
+    v.cov["transitions"] += tst["generated"]
+    v.cov["traces_validated_against_impl"] += n_traces
+    v.cov["stages"].append({"name": "TraceNamespace", "lines": nlines, "traces": n_traces, "accepted": ok})
+    if not ok:
+        trace_violation(v, "C13_trace", trace, line, "handed-out prefixes / ids are not one grow-only bijection, or a round trip failed")
+    v.assumptions = ["prefix tokens and internal ids are chosen by the hub; the specification constrains them as a grow-only bijection",
+                     "the concurrent part observes a Go-runtime detected map race probabilistically (seconds of stress per run)"]
+    return v.finish(rule="(a) operation sequences emitted by TLC from spec/Namespace.tla, executed on the real store with "
+                    "restarts; (b) seeded concurrent stress in a child process; (c) every recorded pair validated by TLC "
+                    "against spec/TraceNamespace.tla. evaluations = compared answers; distinct_nontrivial = non-empty sequences")
